@@ -216,17 +216,51 @@ def run(ctx: Ctx) -> None:
 
     # ------------------------------------------------------------ R-C17.3 negative literal folding
     vu = idx.method("ExprBuilder", "visit_UnaryOp")
-    folded = False
-    facts = {}
-    for m in walk_no_nested(vu.node):
-        if isinstance(m, ast.match_case):
-            txt = ast.unparse(m.pattern)
-            if "USub" in txt and "Constant" in txt:
-                neg = any(isinstance(s, ast.Assign) and isinstance(s.value, ast.UnaryOp) and isinstance(s.value.op, ast.USub) for b in m.body for s in ast.walk(b))
-                facts = {"pattern": txt[:80], "negates": neg}
-                folded = neg and ("int" in txt)
-    ctx.check(folded, "R-C17.3", f"{vu.qualname}#folds-negative-int-literals", vu.where, facts,
-              "`-9223372036854775808` is checked as 9223372036854775808 (out of range) and negated afterwards")
+    # interpreted: `-<int literal>` must come back as ONE constant holding the negated value (so that -2^63 is range-checked as
+    # -2^63, not as 2^63 negated afterwards); anything else goes to the generic traversal
+    from ..absint.astmodel import N
+    from ..absint.pyeval import Raised
+    fold_bad, fold_und = [], None
+    vps = [a_.arg for a_ in vu.node.args.args]
+    for label, mk, want in (("-9223372036854775808", lambda: N("UnaryOp", op=N("USub"), operand=N("Constant", value=1 << 63)), -(1 << 63)),
+                            ("-5", lambda: N("UnaryOp", op=N("USub"), operand=N("Constant", value=5)), -5),
+                            ("-1.5", lambda: N("UnaryOp", op=N("USub"), operand=N("Constant", value=1.5)), -1.5),
+                            ("-x", lambda: N("UnaryOp", op=N("USub"), operand=N("Name", id="x")), "generic"),
+                            ("+5", lambda: N("UnaryOp", op=N("UAdd"), operand=N("Constant", value=5)), "generic"),
+                            ("-'s'", lambda: N("UnaryOp", op=N("USub"), operand=N("Constant", value="s")), "generic")):
+        node_t = mk()
+        self_t = Tok("expr_builder", __classes__=vu.cls.mro(), __methods__={"generic_visit": lambda r, a_: "generic"}, __ident__=1)
+        try:
+            r = PyEval(idx, vu.module.name).run(vu.node.body, {vps[0]: self_t, vps[1]: node_t, "with_loc": lambda n_, e_, en_: e_.ev(n_.args[1], en_)})
+        except Unsupported as e:
+            fold_und = f"{label}: {e}"
+            break
+        except Raised as e:
+            fold_bad.append({"expression": label, "problem": f"raises {e}"})
+            continue
+        got = r[1] if r[0] == "return" else r[0]
+        if want == "generic":
+            ok = got == "generic"
+        else:
+            ok = isinstance(got, Tok) and got.attrs.get("__class__") == "Constant" and got.attrs.get("value") == want and type(got.attrs.get("value")) is type(want)
+        if not ok:
+            fold_bad.append({"expression": label, "result": repr(got)[:60] + (f" value={got.attrs.get('value')!r}" if isinstance(got, Tok) else ""), "should_be": f"Constant({want})" if want != "generic" else "generic traversal"})
+    if fold_und is None:
+        ctx.check(not fold_bad, "R-C17.3", f"{vu.qualname}#folds-negative-int-literals", vu.where, {"cases": 6, "counterexamples": fold_bad},
+                  "`-9223372036854775808` is checked as 9223372036854775808 (out of range) and negated afterwards")
+    else:
+        ctx.note(f"R-C17.3 visit_UnaryOp not interpretable ({fold_und}); pattern-shape form used")
+        folded = False
+        facts = {}
+        for m in walk_no_nested(vu.node):
+            if isinstance(m, ast.match_case):
+                txt = ast.unparse(m.pattern)
+                if "USub" in txt and "Constant" in txt:
+                    neg = any(isinstance(s, ast.Assign) and isinstance(s.value, ast.UnaryOp) and isinstance(s.value.op, ast.USub) for b in m.body for s in ast.walk(b))
+                    facts = {"pattern": txt[:80], "negates": neg}
+                    folded = neg and ("int" in txt)
+        ctx.check(folded, "R-C17.3", f"{vu.qualname}#folds-negative-int-literals", vu.where, facts,
+                  "`-9223372036854775808` is checked as 9223372036854775808 (out of range) and negated afterwards")
 
     # ------------------------------------------------------------ R-C17.4 lowering by signedness
     from . import c17_lowering
